@@ -9,6 +9,7 @@ import xarray
 import emsarray  # noqa: F401
 from coqio import Some, coq_eval_sharded, to_coq
 import clipcommon as cc
+import gen
 import polymodel as pm
 from hutil import attempt
 from props.c10 import compressed, spec_violations
@@ -31,6 +32,34 @@ def run(ctx):
                 'explicitly; every connectivity table of the input present, renumbered as the model says, consistent with the '
                 'others, same integer type and index base in the saved file; plus select_variables on subsets of the data variables. '
                 'non-trivial = the clip drops at least one cell; distinct by case description')
+    # ---- select_variables asked for data variables that look like coordinates themselves (positions of velocity points: 2-D
+    # fields with units degrees_east / degrees_north stored after the real coordinates): the subset has the dataset's geometry
+    for fam, kw in [('cf1d', dict(ny=3, nx=4)), ('cf2d', dict(ny=3, nx=3, invalid=False, holes='none')), ('cf1d', dict(ny=2, nx=5, bounds=True))]:
+        dq = gen.any_dataset(ctx.rng, fam, **kw)
+        gd = dq.spec['kinds']['face']
+        shp = [dq.ds.sizes[x] for x in gd]
+        base = numpy.arange(int(numpy.prod(shp)), dtype='f8').reshape(shp)
+        dq.ds['temp'] = xarray.DataArray(base + 100, dims=gd)
+        dq.ds['lon_u'] = xarray.DataArray(base / 8 + 300, dims=gd, attrs={'units': 'degrees_east', 'long_name': 'longitude of u points'})
+        dq.ds['lat_u'] = xarray.DataArray(base / 8 - 60, dims=gd, attrs={'units': 'degrees_north', 'standard_name': 'latitude'})
+        with warnings.catch_warnings():
+            warnings.simplefilter('ignore')
+            r0 = attempt(lambda: (type(dq.ds.ems), pm.impl_polygons(dq.ds.ems)))
+        if r0[0] != 'ok':
+            continue
+        for sub in (['lon_u'], ['lat_u', 'lon_u'], ['lon_u', 'temp'], ['temp']):
+            qcase = {'dataset': dq.spec['label'], 'select_variables': sub, 'what': 'requested variables carry longitude / latitude units'}
+            ctx.case((dq.spec['label'], 'select coordinate-like', tuple(sub)), True)
+            ctx.count('select_variables:coordinate-like data variables')
+            with warnings.catch_warnings():
+                warnings.simplefilter('ignore')
+                r = attempt(lambda: dq.ds.ems.select_variables(sub))
+                r1 = attempt(lambda: (type(r[1].ems), pm.impl_polygons(r[1].ems))) if r[0] == 'ok' else r
+            if r1[0] != 'ok':
+                ctx.report('property', f'select_variables({sub}): the subset has no usable geometry: {r1[1]}', qcase)
+            elif r1[1][0] is not r0[1][0] or r1[1][1] != r0[1][1]:
+                ctx.report('property', f'select_variables({sub}): the subset is handled by {r1[1][0].__name__} and its polygons '
+                           f'{"differ from" if r1[1][1] != r0[1][1] else "equal"} those of the dataset ({r0[1][0].__name__})', qcase)
     fl, tmp = cc.flows(ctx, 35 if quick else 140, quick)
     exprs, plans = [], []
     try:
